@@ -39,9 +39,20 @@ SLICES = {
     },
 }
 
+SLICES['cache'] = {
+    'what': 'util/cache.c: the sharded LRU cache driven through its public API (insert / lookup / release / erase / prune / usage, a deleter that '
+            'logs every freed value, capacities 0..8 per shard, overwrite- / erase- / prune-while-pinned) and its handle table (chains, resize)',
+    'module': 'LcdbModel.Props.LruCacheProps', 'gen': ('gens_cache', 'gen_cache'),
+    'theorems': [L + t for t in ('run_total', 'run_from_empty', 'latest_spec', 'lookup_coherent', 'lookup_out_coherent', 'pinned_never_deleted', 'deleted_once',
+                                 'shutdown_deletes_all', 'usage_is_sum', 'capacity_respected', 'capacity_preserved', 'lru_order', 'release_appends',
+                                 'lookup_unlinks', 'prune_deletes_lru', 'invariants', 'htable_is_map', 'shardOf_lt', 'cache_insert_local', 'newId_fresh')],
+}
+
 # property -> slices (quick size, thorough size)
 PROP_SLICES = {
-    'C01': [('policy', 700, 20000), ('skiplist', 700, 20000)],
+    'C01': [('policy', 700, 20000), ('skiplist', 700, 20000), ('cache', 700, 20000)],
+    'C10': [('cache', 1200, 40000), ('skiplist', 600, 20000)],
+    'C18': [('cache', 600, 20000)],
     'C14': [('policy', 1500, 60000)],
     'C07': [('skiplist', 900, 30000)],
     'C02': [('wfile', 900, 30000)],
